@@ -493,9 +493,16 @@ def _loads(a: ast.AST, bound: set[str]) -> list[ast.Name]:
     return out
 
 
-def reaching_definitions(cfg: CFG, params: set[str]):
-    """Classic RD. Returns IN[node] = {var: set(def_node_id)}; entry defines params (id -1)."""
-    defs = {n.id: node_defs(n) for n in cfg.nodes}
+def reaching_definitions(cfg: CFG, params: set[str], extra_defs: dict[int, set[str]] | None = None):
+    """Classic RD. Returns IN[node] = {var: set(def_node_id)}; entry defines params (id -1).
+
+    extra_defs adds pseudo-definitions (node id -> names), e.g. a loop header that "defines" every
+    variable assigned in its body, so that a definition id equal to the header means "value of an
+    earlier iteration (or of before the loop)".
+    """
+    defs = {n.id: set(node_defs(n)) for n in cfg.nodes}
+    for k, v in (extra_defs or {}).items():
+        defs[k] |= set(v)
     IN: dict[int, dict[str, set[int]]] = {n.id: {} for n in cfg.nodes}
     OUT: dict[int, dict[str, set[int]]] = {n.id: {} for n in cfg.nodes}
     OUT[cfg.entry.id] = {p: {-1} for p in params}
@@ -526,3 +533,44 @@ def reaching_definitions(cfg: CFG, params: set[str]):
                 if y not in work:
                     work.append(y)
     return IN, OUT
+
+
+def loop_carried(cfg: CFG, loop: ast.For | ast.While, use: ast.AST, var: str, params: set[str] = frozenset()):
+    """Is the value of `var` at statement `use` (inside `loop`) possibly that of an earlier iteration?
+
+    Backward slice over reaching definitions inside the loop body with the loop header acting as a
+    pseudo-definition of every name assigned in the body.  Returns a list of chains
+    [(var, line), ...] ending at the name whose value crosses the header; [] if none.
+    """
+    head = [n for n in cfg.nodes if n.kind in ("iter", "test") and n.ast is loop]
+    if not head:
+        raise ValueError("loop header not in cfg")
+    H = head[0].id
+    inside = {id(x) for st in loop.body for x in ast.walk(st)}
+    body_nodes = [n for n in cfg.nodes if n.ast is not None and id(n.ast) in inside]
+    assigned = set()
+    for n in body_nodes:
+        assigned |= set(node_defs(n))
+    own = set(node_defs(head[0]))
+    IN, _OUT = reaching_definitions(cfg, set(params), {H: assigned - own})
+    starts = [n for n in cfg.stmt_nodes_containing(use)]
+    if not starts:
+        raise ValueError("use statement not in cfg")
+    byid = {n.id: n for n in cfg.nodes}
+    out = []
+    seen = set()
+    work = [(s.id, var, [(var, s.lineno)]) for s in starts]
+    while work:
+        nid, v, chain = work.pop()
+        if (nid, v) in seen:
+            continue
+        seen.add((nid, v))
+        for d in IN[nid].get(v, ()):
+            if d == H and v in assigned and v not in own:
+                out.append(chain)
+                continue
+            if d < 0 or d not in byid or id(byid[d].ast) not in inside:
+                continue
+            for u in node_uses(byid[d]):
+                work.append((d, u.id, chain + [(u.id, byid[d].lineno)]))
+    return out
